@@ -300,7 +300,8 @@ class Textgrid:
 
         maxTimestamp = self.maxTimestamp
         if doShrink is True:
-            maxTimestamp -= diff
+            # Same computation as in the tiers, so that all spans agree
+            maxTimestamp = max(start, maxTimestamp - diff)
 
         newTG = Textgrid(self.minTimestamp, self.maxTimestamp)
         for tier in self.tiers:
